@@ -29,4 +29,25 @@ theorem xor_fits (a b : Bytes) : fromLE a ^^^ fromLE (b.take a.length) < 256 ^ a
   · rw [← pow256]
     exact Nat.lt_of_lt_of_le (fromLE_lt _) (Nat.pow_le_pow_right (by omega) (by simp; omega))
 
+/-! Slice forms that agree once a length guard has been passed (`x[0:8]`, `x[8:16]`, `x[8:]`, `x[-8:]` on a 16-byte
+`x`): used as a fall-back by the refinement proofs, so that a rewrite of one form into another does not break them. -/
+
+theorem slice_zero {α} (l : List α) (n : Nat) : slice l 0 n = l.take n := by simp [slice]
+
+theorem slice_to_end {α} (l : List α) (a b : Nat) (h : l.length ≤ b) : slice l a b = l.drop a := by
+  unfold slice
+  apply List.take_of_length_le
+  simp; omega
+
+theorem lastN_eq_drop {α} (l : List α) (n k : Nat) (h : l.length = k) : lastN n l = l.drop (k - n) := by
+  simp [lastN, h]
+
+theorem take_drop_all {α} (l : List α) (a n : Nat) (h : l.length ≤ a + n) : (l.drop a).take n = l.drop a := by
+  apply List.take_of_length_le
+  simp; omega
+
+/-- closes `f (… slice form …) = f (… another slice form …)` goals under the length hypotheses in the context -/
+macro "slice_forms" : tactic =>
+  `(tactic| (simp_all (config := { decide := true }) [slice_zero, slice_to_end, take_drop_all, lastN, zeros, List.replicate]))
+
 end Pyemv.ModRefines
